@@ -156,7 +156,9 @@ def main(argv):
                           if any(".GenTie." in f for f in failed) else ""), "log": log[-3000:]})
 
     # 3. audit ----------------------------------------------------------------
-    thms = [t["name"] for t in mod.THEOREMS]
+    # entries with strength "monitored" name clauses of the property that have NO theorem (decided by
+    # evaluation on real runs only); they are listed for honesty and are not proof obligations
+    thms = [t["name"] for t in mod.THEOREMS if t.get("strength") != "monitored"]
     discharged = 0
     audit_res = {}
     forb = core.grep_forbidden(core.lean_sources())
